@@ -1,1 +1,388 @@
-From Ase Require Import Model.Dump.
+(* C01: the loaded sprite reports exactly what the file encodes.
+   This file: decode-after-encode for the header and for every chunk kind (for every
+   well-formed value, every content of the reserved fields, every tail), the dispatcher on
+   encoded chunks, and the laws of the lookup accessors.  Encoders and well-formedness
+   predicates: Spec/EncodeChunks.v. *)
+From Ase Require Import Model.Api.
+From Ase Require Import Spec.EncodeChunks.
+From Ase Require Import Proofs.RoundTrip.
+From Ase Require Import Proofs.Accessors.
+
+(* ---------------- header ---------------- *)
+
+(* the 128-byte header: stored fields recovered, junk ignored, then the frames are read *)
+Theorem C01_header :
+  forall (inflate : list Z -> Z -> zres) (h : hfields) (fsize jflags j2 j3 grid rsv : list Z)
+         (fmt : pixfmt) (t : list Z),
+    wf_header h -> wf_header_junk fsize jflags j2 j3 grid rsv -> header_fmt h = Some fmt ->
+    run (parse_file inflate) (enc_header h fsize jflags j2 j3 grid rsv ++ t)
+    = run (parse_frames inflate h fmt) t.
+Proof. exact dec_enc_header. Qed.
+Print Assumptions C01_header.
+
+Theorem C01_header_parsed :
+  forall (inflate : list Z -> Z -> zres) (h : hfields) (fsize jflags j2 j3 grid rsv : list Z)
+         (fmt : pixfmt) (t : list Z) (hd : header) (p : pinfo) (rest : list Z),
+    wf_header h -> wf_header_junk fsize jflags j2 j3 grid rsv -> header_fmt h = Some fmt ->
+    run (parse_file inflate) (enc_header h fsize jflags j2 j3 grid rsv ++ t) = Ok ((hd, p), rest) ->
+    h_frames hd = hf_frames h /\ h_width hd = hf_width h /\ h_height hd = hf_height h /\ h_fmt hd = fmt.
+Proof. exact header_parsed. Qed.
+Print Assumptions C01_header_parsed.
+
+(* canvas size, frame count, pixel format and transparent index of a sprite that loads *)
+Theorem C01_header_loaded :
+  forall (inflate : list Z -> Z -> zres) (h : hfields) (fsize jflags j2 j3 grid rsv : list Z)
+         (fmt : pixfmt) (t : list Z) (f : file),
+    wf_header h -> wf_header_junk fsize jflags j2 j3 grid rsv -> header_fmt h = Some fmt ->
+    load inflate (enc_header h fsize jflags j2 j3 grid rsv ++ t) = Ok f ->
+    f_width f = hf_width h /\ f_height f = hf_height h /\ f_nframes f = hf_frames h /\ f_fmt f = fmt.
+Proof. exact header_loaded. Qed.
+Print Assumptions C01_header_loaded.
+
+Theorem C01_header_noframes :
+  forall (inflate : list Z -> Z -> zres) (h : hfields) (fsize jflags j2 j3 grid rsv : list Z)
+         (fmt : pixfmt) (t : list Z),
+    wf_header h -> wf_header_junk fsize jflags j2 j3 grid rsv -> header_fmt h = Some fmt ->
+    hf_frames h = 0 ->
+    run (parse_file inflate) (enc_header h fsize jflags j2 j3 grid rsv ++ t)
+    = Ok (({| h_frames := 0; h_width := hf_width h; h_height := hf_height h; h_fmt := fmt |},
+           pinfo_new 0 (hf_default_time h)), t).
+Proof. exact dec_enc_header_noframes. Qed.
+Print Assumptions C01_header_noframes.
+
+(* ---------------- layer ---------------- *)
+
+Theorem C01_layer :
+  forall (l : layer) (fw : Z) (dsize rsv t : list Z),
+    wf_layer l fw -> junk 4 dsize -> junk 3 rsv ->
+    run dec_layer (enc_layer l fw dsize rsv ++ t) = Ok (l, t).
+Proof. exact dec_enc_layer. Qed.
+Print Assumptions C01_layer.
+
+Theorem C01_layer_payload :
+  forall (l : layer) (fw : Z) (dsize rsv t : list Z),
+    wf_layer l fw -> junk 4 dsize -> junk 3 rsv ->
+    run_payload dec_layer (enc_layer l fw dsize rsv ++ t) = Ok l.
+Proof. exact payload_layer. Qed.
+Print Assumptions C01_layer_payload.
+
+(* the stored flags are the low seven bits of the flags word *)
+Theorem C01_layer_flags :
+  forall fw hi : Z, 0 <= fw < 128 -> Z.land (fw + 128 * hi) 127 = fw.
+Proof. exact layer_flags_low. Qed.
+Print Assumptions C01_layer_flags.
+
+(* ---------------- tags ---------------- *)
+
+Theorem C01_tags :
+  forall (ts : list (tag * list Z)) (rsv t : list Z),
+    wf_tags ts -> junk 8 rsv ->
+    run dec_tags (enc_tags ts rsv ++ t) = Ok (map fst ts, t).
+Proof. exact dec_enc_tags. Qed.
+Print Assumptions C01_tags.
+
+Theorem C01_tags_payload :
+  forall (ts : list (tag * list Z)) (rsv t : list Z),
+    wf_tags ts -> junk 8 rsv ->
+    run_payload dec_tags (enc_tags ts rsv ++ t) = Ok (map fst ts).
+Proof. exact payload_tags. Qed.
+Print Assumptions C01_tags_payload.
+
+(* ---------------- user data ---------------- *)
+
+Theorem C01_userdata :
+  forall (u : userdata) (flags : Z) (t : list Z),
+    wf_userdata u flags -> run dec_userdata (enc_userdata u flags ++ t) = Ok (u, t).
+Proof. exact dec_enc_userdata. Qed.
+Print Assumptions C01_userdata.
+
+Theorem C01_userdata_payload :
+  forall (u : userdata) (flags : Z) (t : list Z),
+    wf_userdata u flags -> run_payload dec_userdata (enc_userdata u flags ++ t) = Ok u.
+Proof. exact payload_userdata. Qed.
+Print Assumptions C01_userdata_payload.
+
+(* ---------------- slice (all keys, in order) ---------------- *)
+
+Theorem C01_slice :
+  forall (s : slice) (flags : Z) (rsv t : list Z),
+    wf_slice s flags -> junk 4 rsv ->
+    run dec_slice (enc_slice s flags rsv ++ t) = Ok (s, t).
+Proof. exact dec_enc_slice. Qed.
+Print Assumptions C01_slice.
+
+Theorem C01_slice_payload :
+  forall (s : slice) (flags : Z) (rsv t : list Z),
+    wf_slice s flags -> junk 4 rsv ->
+    run_payload dec_slice (enc_slice s flags rsv ++ t) = Ok s.
+Proof. exact payload_slice. Qed.
+Print Assumptions C01_slice_payload.
+
+(* ---------------- palette (entry lookup: Props/C11.v) ---------------- *)
+
+Theorem C01_palette :
+  forall (total first : Z) (entries : list (palentry * Z)) (rsv t : list Z),
+    wf_palette first entries -> junk 8 rsv ->
+    run dec_palette (enc_palette total first entries rsv ++ t)
+    = Ok (palette_of first entries, t).
+Proof. exact dec_enc_palette. Qed.
+Print Assumptions C01_palette.
+
+(* ---------------- external files ---------------- *)
+
+Theorem C01_external :
+  forall (es : list ((Z * list Z) * list Z)) (rsv t : list Z),
+    wf_external es -> junk 8 rsv ->
+    run dec_external (enc_external es rsv ++ t) = Ok (map fst es, t).
+Proof. exact dec_enc_external. Qed.
+Print Assumptions C01_external.
+
+Theorem C01_external_payload :
+  forall (es : list ((Z * list Z) * list Z)) (rsv t : list Z),
+    wf_external es -> junk 8 rsv ->
+    run_payload dec_external (enc_external es rsv ++ t) = Ok (map fst es).
+Proof. exact payload_external. Qed.
+Print Assumptions C01_external_payload.
+
+(* ---------------- colour profile ---------------- *)
+
+Theorem C01_color_profile :
+  forall (ty flags : Z) (gamma rsv t : list Z),
+    wf_color_profile ty flags -> junk 4 gamma -> junk 8 rsv ->
+    run dec_color_profile (enc_color_profile ty flags gamma rsv ++ t) = Ok (tt, t).
+Proof. exact dec_enc_color_profile. Qed.
+Print Assumptions C01_color_profile.
+
+(* ---------------- cels ---------------- *)
+
+Theorem C01_cel_hdr :
+  forall (c : celcommon) (cel_type : Z) (rsv t : list Z),
+    wf_celcommon c -> junk 7 rsv ->
+    run dec_cel_hdr (enc_cel_hdr c cel_type rsv ++ t) = Ok ((c, cel_type), t).
+Proof. exact dec_enc_cel_hdr. Qed.
+Print Assumptions C01_cel_hdr.
+
+Theorem C01_cel_linked :
+  forall (inflate : list Z -> Z -> zres) (fmt : pixfmt) (c : celcommon) (rsv : list Z) (frame : Z) (t : list Z),
+    wf_celcommon c -> junk 7 rsv ->
+    dec_cel inflate fmt (enc_cel_linked c rsv frame ++ t)
+    = Ok {| c_data := c; c_content := CLinked frame; c_ud := None |}.
+Proof. exact dec_enc_cel_linked. Qed.
+Print Assumptions C01_cel_linked.
+
+Theorem C01_cel_raw :
+  forall (inflate : list Z -> Z -> zres) (fmt : pixfmt) (c : celcommon) (rsv : list Z) (w h : Z)
+         (bytes : list Z) (px : rawpixels) (t : list Z),
+    wf_celcommon c -> junk 7 rsv ->
+    zlen bytes = bytes_per_pixel fmt * (w * h) -> from_bytes bytes fmt = Ok px ->
+    dec_cel inflate fmt (enc_cel_raw c rsv w h bytes ++ t)
+    = Ok {| c_data := c; c_content := CRaw w h px; c_ud := None |}.
+Proof. exact dec_enc_cel_raw. Qed.
+Print Assumptions C01_cel_raw.
+
+Theorem C01_cel_zimage :
+  forall (inflate : list Z -> Z -> zres) (fmt : pixfmt) (c : celcommon) (rsv : list Z) (w h : Z)
+         (z bytes : list Z) (px : rawpixels) (t : list Z),
+    wf_celcommon c -> junk 7 rsv ->
+    inflate (z ++ t) (bytes_per_pixel fmt * (w * h) + 1) = ZOk bytes ->
+    zlen bytes = bytes_per_pixel fmt * (w * h) -> from_bytes bytes fmt = Ok px ->
+    dec_cel inflate fmt (enc_cel_zimage c rsv w h z ++ t)
+    = Ok {| c_data := c; c_content := CRaw w h px; c_ud := None |}.
+Proof. exact dec_enc_cel_zimage. Qed.
+Print Assumptions C01_cel_zimage.
+
+(* pixel bytes in the three formats *)
+Theorem C01_pixels_rgba : forall l : list pixel, from_bytes (enc_rgba l) FRgba = Ok (RPRgba l).
+Proof. exact from_bytes_rgba. Qed.
+Print Assumptions C01_pixels_rgba.
+Theorem C01_pixels_gray : forall l : list (Z * Z), from_bytes (enc_gray l) FGray = Ok (RPGray l).
+Proof. exact from_bytes_gray. Qed.
+Print Assumptions C01_pixels_gray.
+Theorem C01_pixels_indexed : forall (l : list Z) (ti : Z), from_bytes l (FIndexed ti) = Ok (RPIndexed l).
+Proof. exact from_bytes_indexed. Qed.
+Print Assumptions C01_pixels_indexed.
+
+Theorem C01_tilemap_hdr :
+  forall (w h idmask : Z) (masks rsv t : list Z),
+    junk 12 masks -> junk 10 rsv ->
+    run dec_tilemap_hdr (enc_tilemap_hdr w h idmask masks rsv ++ t) = Ok ((w, h, idmask), t).
+Proof. exact dec_enc_tilemap_hdr. Qed.
+Print Assumptions C01_tilemap_hdr.
+
+(* ---------------- tileset ---------------- *)
+
+Theorem C01_tileset_hdr :
+  forall (ts : tileset rawpixels) (flags : Z) (rsv clen t : list Z),
+    wf_tileset_hdr ts flags -> junk 14 rsv -> junk 4 clen ->
+    run dec_tileset_hdr (enc_tileset_hdr ts flags rsv clen ++ t) = Ok ((ts, bit flags 2), t).
+Proof. exact dec_enc_tileset_hdr. Qed.
+Print Assumptions C01_tileset_hdr.
+
+(* the whole tileset chunk; z = any stream that inflates to the tile pixels *)
+Theorem C01_tileset_nopixels :
+  forall (inflate : list Z -> Z -> zres) (fmt : pixfmt) (ts : tileset rawpixels) (flags : Z)
+         (rsv clen t : list Z),
+    wf_tileset_hdr ts flags -> junk 14 rsv -> junk 4 clen -> bit flags 2 = false ->
+    dec_tileset inflate fmt (enc_tileset_hdr ts flags rsv clen ++ t) = Ok ts.
+Proof. exact dec_enc_tileset_nopixels. Qed.
+Print Assumptions C01_tileset_nopixels.
+
+Theorem C01_tileset_pixels :
+  forall (inflate : list Z -> Z -> zres) (fmt : pixfmt) (ts : tileset rawpixels) (flags : Z)
+         (rsv clen z bytes : list Z) (px : rawpixels) (t : list Z),
+    wf_tileset_hdr ts flags -> junk 14 rsv -> junk 4 clen -> bit flags 2 = true ->
+    ts_count ts * ts_h ts * ts_w ts < 4294967296 ->
+    inflate (z ++ t) (bytes_per_pixel fmt * (ts_count ts * ts_h ts * ts_w ts) + 1) = ZOk bytes ->
+    zlen bytes = bytes_per_pixel fmt * (ts_count ts * ts_h ts * ts_w ts) ->
+    from_bytes bytes fmt = Ok px ->
+    dec_tileset inflate fmt (enc_tileset_hdr ts flags rsv clen ++ z ++ t) = Ok (set_ts_pixels ts (Some px)).
+Proof. exact dec_enc_tileset_pixels. Qed.
+Print Assumptions C01_tileset_pixels.
+
+(* tilemap cel *)
+Theorem C01_cel_tilemap :
+  forall (inflate : list Z -> Z -> zres) (fmt : pixfmt) (c : celcommon) (rsv : list Z) (w h idmask : Z)
+         (masks rsv2 z bytes t : list Z),
+    wf_celcommon c -> junk 7 rsv -> junk 12 masks -> junk 10 rsv2 ->
+    inflate (z ++ t) (4 * (w * h) + 1) = ZOk bytes -> zlen bytes = 4 * (w * h) ->
+    dec_cel inflate fmt (enc_cel_hdr c 3 rsv ++ enc_tilemap_hdr w h idmask masks rsv2 ++ z ++ t)
+    = Ok {| c_data := c;
+            c_content := CTilemap {| tm_w := w; tm_h := h;
+                                     tm_tiles := arr_of_list (map (fun bits => Z.land bits idmask) (group_dwords bytes)) |};
+            c_ud := None |}.
+Proof. exact dec_enc_cel_tilemap. Qed.
+Print Assumptions C01_cel_tilemap.
+
+(* the flag bits in terms of testbit *)
+Theorem C01_flag_bits :
+  forall f : Z, bit f 1 = Z.testbit f 0 /\ bit f 2 = Z.testbit f 1 /\ bit f 4 = Z.testbit f 2.
+Proof. exact flag_bits. Qed.
+Print Assumptions C01_flag_bits.
+
+(* ---------------- the dispatcher on encoded chunks ---------------- *)
+
+Theorem C01_process_layer :
+  forall (inflate : list Z -> Z -> zres) (fmt : pixfmt) (fid : Z) (p : pinfo)
+         (l : layer) (fw : Z) (dsize rsv t : list Z),
+    wf_layer l fw -> junk 4 dsize -> junk 3 rsv ->
+    process_chunk inflate fmt fid p (8196, enc_layer l fw dsize rsv ++ t) = Ok (add_layer p l).
+Proof. exact process_enc_layer. Qed.
+Print Assumptions C01_process_layer.
+
+Theorem C01_process_tags :
+  forall (inflate : list Z -> Z -> zres) (fmt : pixfmt) (fid : Z) (p : pinfo)
+         (ts : list (tag * list Z)) (rsv t : list Z),
+    wf_tags ts -> junk 8 rsv ->
+    process_chunk inflate fmt fid p (8216, enc_tags ts rsv ++ t)
+    = Ok (if fid =? 0 then add_tags p (map fst ts) else p).
+Proof. exact process_enc_tags. Qed.
+Print Assumptions C01_process_tags.
+
+Theorem C01_process_slice :
+  forall (inflate : list Z -> Z -> zres) (fmt : pixfmt) (fid : Z) (p : pinfo)
+         (s : slice) (flags : Z) (rsv t : list Z),
+    wf_slice s flags -> junk 4 rsv ->
+    process_chunk inflate fmt fid p (8226, enc_slice s flags rsv ++ t) = Ok (add_slice p s).
+Proof. exact process_enc_slice. Qed.
+Print Assumptions C01_process_slice.
+
+Theorem C01_process_userdata :
+  forall (inflate : list Z -> Z -> zres) (fmt : pixfmt) (fid : Z) (p : pinfo)
+         (u : userdata) (flags : Z) (t : list Z),
+    wf_userdata u flags ->
+    process_chunk inflate fmt fid p (8224, enc_userdata u flags ++ t) = add_user_data p u.
+Proof. exact process_enc_userdata. Qed.
+Print Assumptions C01_process_userdata.
+
+Theorem C01_process_external :
+  forall (inflate : list Z -> Z -> zres) (fmt : pixfmt) (fid : Z) (p : pinfo)
+         (es : list ((Z * list Z) * list Z)) (rsv t : list Z),
+    wf_external es -> junk 8 rsv ->
+    process_chunk inflate fmt fid p (8200, enc_external es rsv ++ t)
+    = Ok (add_external_files p (map fst es)).
+Proof. exact process_enc_external. Qed.
+Print Assumptions C01_process_external.
+
+Theorem C01_process_palette :
+  forall (inflate : list Z -> Z -> zres) (fmt : pixfmt) (fid : Z) (p : pinfo)
+         (total first : Z) (entries : list (palentry * Z)) (rsv t : list Z),
+    wf_palette first entries -> junk 8 rsv ->
+    process_chunk inflate fmt fid p (8217, enc_palette total first entries rsv ++ t)
+    = Ok (with_palette p (Some (palette_of first entries))).
+Proof. exact process_enc_palette. Qed.
+Print Assumptions C01_process_palette.
+
+Theorem C01_process_color_profile :
+  forall (inflate : list Z -> Z -> zres) (fmt : pixfmt) (fid : Z) (p : pinfo)
+         (ty flags : Z) (gamma rsv t : list Z),
+    wf_color_profile ty flags -> junk 4 gamma -> junk 8 rsv ->
+    process_chunk inflate fmt fid p (8199, enc_color_profile ty flags gamma rsv ++ t) = Ok p.
+Proof. exact process_enc_color_profile. Qed.
+Print Assumptions C01_process_color_profile.
+
+(* ---------------- accessor laws ---------------- *)
+
+Theorem C01_list_eqb : forall a b : list Z, list_eqb a b = true <-> a = b.
+Proof. exact list_eqb_eq. Qed.
+Print Assumptions C01_list_eqb.
+
+(* layer_by_name: the lowest-numbered layer with that name *)
+Theorem C01_layer_by_name_lowest :
+  forall (f : file) (name : list Z) (i : Z),
+    layer_by_name f name = Some i ->
+    0 <= i < num_layers f /\
+    (exists l, aget (f_layers f) i = Some l /\ l_name l = name) /\
+    (forall j l, 0 <= j < i -> aget (f_layers f) j = Some l -> l_name l <> name).
+Proof. exact layer_by_name_lowest. Qed.
+Print Assumptions C01_layer_by_name_lowest.
+
+Theorem C01_layer_by_name_none :
+  forall (f : file) (name : list Z),
+    layer_by_name f name = None <-> forall j l, aget (f_layers f) j = Some l -> l_name l <> name.
+Proof. exact layer_by_name_none. Qed.
+Print Assumptions C01_layer_by_name_none.
+
+Theorem C01_layer_by_name_found :
+  forall (f : file) (name : list Z) (j : Z) (l : layer),
+    aget (f_layers f) j = Some l -> l_name l = name ->
+    exists i, layer_by_name f name = Some i /\ i <= j.
+Proof. exact layer_by_name_found. Qed.
+Print Assumptions C01_layer_by_name_found.
+
+(* tag_by_name: the lowest-numbered tag with that name *)
+Theorem C01_tag_by_name_lowest :
+  forall (f : file) (name : list Z) (i : Z),
+    tag_by_name f name = Some i ->
+    (exists t, get_tag f i = Some t /\ t_name t = name) /\
+    (forall j t, 0 <= j < i -> get_tag f j = Some t -> t_name t <> name).
+Proof. exact tag_by_name_lowest. Qed.
+Print Assumptions C01_tag_by_name_lowest.
+
+Theorem C01_tag_by_name_none :
+  forall (f : file) (name : list Z),
+    tag_by_name f name = None <-> forall k t, get_tag f k = Some t -> t_name t <> name.
+Proof. exact tag_by_name_none. Qed.
+Print Assumptions C01_tag_by_name_none.
+
+(* get_tag returns nothing exactly when out of range *)
+Theorem C01_get_tag_range :
+  forall (f : file) (k : Z), get_tag f k = None <-> k < 0 \/ num_tags f <= k.
+Proof. exact get_tag_range. Qed.
+Print Assumptions C01_get_tag_range.
+
+Theorem C01_get_tag_some :
+  forall (f : file) (k : Z), 0 <= k < num_tags f -> exists t, get_tag f k = Some t /\ tag_get f k = Ok t.
+Proof. exact get_tag_some. Qed.
+Print Assumptions C01_get_tag_some.
+
+(* iteration in index order: every index exactly once *)
+Theorem C01_iteration :
+  forall n : Z, 0 <= n ->
+    zlen (ziota n) = n /\ (forall i, 0 <= i < n -> nthz (ziota n) i = Some i) /\ NoDup (ziota n).
+Proof. exact ziota_enumerates. Qed.
+Print Assumptions C01_iteration.
+
+(* layers in file order *)
+Theorem C01_layers_in_order : forall (ls : list layer) (i : Z), aget (arr_of_list ls) i = nthz ls i.
+Proof. exact layers_in_order. Qed.
+Print Assumptions C01_layers_in_order.
